@@ -553,6 +553,20 @@ func (d *dhcpRun) history() {
 				continue
 			}
 			replies++
+			// where the reply goes: broadcast, or unicast to the client's hardware address and to an address the transaction
+			// names (the request's source address / ciaddr, or the address being handed out) - never anywhere else
+			{
+				bcIP := netip.MustParseAddr("255.255.255.255")
+				okMAC := dec.DstMAC == bcastMAC || dec.DstMAC == cl.mac
+				okIP := dec.DstIP == bcIP || (srcIP.IsValid() && !srcIP.IsUnspecified() && dec.DstIP == srcIP) || (req.CI.IsValid() && !req.CI.IsUnspecified() && dec.DstIP == req.CI) ||
+					(rep.YI.IsValid() && !rep.YI.IsUnspecified() && dec.DstIP == rep.YI)
+				if !okMAC || !okIP || (dec.DstMAC == bcastMAC) != (dec.DstIP == bcIP) {
+					for _, pr := range []string{"C07", "C12"} {
+						c.ViolP(pr, "dhcp:reply-destination", fmt.Sprintf("reply type %d to the %s of client %x (source %v, ciaddr %v) is addressed to %x / %v", rep.Type(), o.K, cl.mac[:], srcIP, req.CI, dec.DstMAC[:], dec.DstIP), cs(step))
+					}
+					d.viol = true
+				}
+			}
 			if c.Only >= 0 {
 				lt, _ := rep.Opt(51)
 				fmt.Fprintf(os.Stderr, "   reply type=%d yiaddr=%v xid=%x opts: mask=%v router=%v dns=%v sid=%v lease=%v\n", rep.Type(), rep.YI, rep.XID, first(rep.Opt(1)), first(rep.Opt(3)), first(rep.Opt(6)), first(rep.Opt(54)), lt)
@@ -741,7 +755,16 @@ func runDHCP(c *wk.Ctx) {
 			cl := r.Intn(3)
 			ack := []dop{{K: "disc", C: cl}, {K: "sel", C: cl}}
 			age := dop{K: "adv", D: 2*time.Hour + time.Minute}
-			switch r.Intn(4) {
+			switch r.Intn(6) {
+			case 4:
+				// two clients are offered the same address (an offer reserves nothing), one takes it, goes back to DISCOVER,
+				// the other takes it on its old offer, the first asks for it again
+				o2 := (cl + 1) % 3
+				prefix = []dop{{K: "disc", C: o2}, {K: "disc", C: cl, P: 2}, {K: "sel", C: cl}, {K: "disc", C: cl, P: 2}, {K: "sel", C: o2}, {K: "sel", C: cl}}
+			case 5:
+				// an address that had earlier holders whose leases ran out, then a new holder who releases it and asks for it again
+				o2 := (cl + 1) % 3
+				prefix = []dop{{K: "disc", C: cl, P: 1}, {K: "sel", C: cl}, age, age, {K: "disc", C: o2, P: 1}, {K: "sel", C: o2}, {K: "release", C: o2}, {K: "reboot", C: o2, P: 1}, {K: "renew", C: o2, P: 1}}
 			case 0: // lease renewed late in its life, server restarted, clock moved beyond the original expiry
 				prefix = append(ack, age, dop{K: "renew", C: cl}, dop{K: "restart", P: r.Intn(4)}, age)
 			case 1: // two clients with acknowledged leases
